@@ -1,6 +1,7 @@
 \* the pinned code: TIMERx_CFG := RES | CM in 4..6 (documented watchdog modes) stops the emulator in
 \* ASSERT(count_mode < 4) (Timer::Restart) and leaves the raw word unwritten -> NoAbort is violated
 CONSTANTS
+  FixedChannelSelect = TRUE
   FixedWindowRaw = FALSE
   FixedWatchdogRestart = FALSE
   ValMode = 1
